@@ -141,7 +141,7 @@ class C18(Check):
             'documented SimPy semantics. Race-free by construction (per-process time phases); cases whose outcome would '
             'depend on same-step order are discarded. non-trivial = >=2 processes interacting through an event, interrupt '
             'or sub-process; distinct by sha1.')
-    budgets = {'quick': dict(examples=1600, procs=4), 'thorough': dict(examples=30000, procs=16)}
+    budgets = {'quick': dict(examples=1600, procs=4), 'thorough': dict(examples=200000, procs=16)}
     level_text = ('Model-based differential: per-process logs (step, env.now, value | exception | interrupt cause), callback '
                   'invocations, second-trigger errors, the result of env.run and env.now afterwards must equal the reference '
                   'simulator; embedded and standalone executions must give the same logs.')
